@@ -54,9 +54,22 @@ class LGen(solvecheck.Gen):
         body = []
         for _ in range(r.randint(1, 2)):
             c = r.random()
-            if c < 0.5 or not use_idx:
+            if c < 0.4 or not use_idx:
                 body.append({"k": "expr", "e": self.elem_cmp(fs, ls, li, x, use_idx)})
-            elif c < 0.8 or ls[li]["randsz"]:
+            elif c < 0.6:
+                # a condition over the index and constants (a literal, a non-random field): folded per iteration when
+                # the foreach is expanded, with every comparison operator, an else-if and an else branch
+                nr = [i for i, f in enumerate(fs) if not f["rand"] and not f["enums"]]
+
+                def cond():
+                    rhs = F(r.choice(nr)) if nr and r.random() < 0.4 else I(r.randint(0, 3))
+                    lhs = {"k": "idx"} if r.random() < 0.8 else B("add", {"k": "idx"}, I(1))
+                    return B(r.choice(["ge", "le", "gt", "lt", "eq", "ne"]), lhs, rhs)
+                body.append({"k": "if", "c": cond(),
+                             "t": [{"k": "expr", "e": self.elem_cmp(fs, ls, li, x, use_idx)}],
+                             "elifs": [{"c": cond(), "t": [{"k": "expr", "e": self.elem_cmp(fs, ls, li, x, use_idx)}]}] if r.random() < 0.3 else [],
+                             "else": [{"k": "expr", "e": self.elem_cmp(fs, ls, li, x, use_idx)}] if r.random() < 0.5 else None})
+            elif c < 0.85 or ls[li]["randsz"]:
                 # neighbour relation under a guard on the index (index arithmetic); (for a random-size list the
                 # guard 'i < size-1' cannot be folded and the expansion raises IndexError: known finding F47)
                 body.append({"k": "if", "c": B("gt", {"k": "idx"}, I(0)),
@@ -490,6 +503,26 @@ def main():
         run_witnesses(ck)
         n = 8000 if tier == "thorough" else 240
         run(ck, n, float(os.environ.get("C04_RANDSZ", "0.25")))
+    # failing-input search: model and implementation disagree but no run contradicts the property — re-run the
+    # disagreeing histories under other random states and look for an oracle failure
+    known_sigs = {k["signature"] for k in ck.known if k.get("status") == "known"}
+    if not replay and ck.corr_failures and not [f for f in ck.oracle_failures if f["signature"] not in known_sigs]:
+        rng = random.Random(seed + 41)
+        # (cases whose lists are random first: only there can returned values contradict a statement)
+        cases = sorted(ck.corr_failures, key=lambda f: (0 if any(l["rand"] for l in f["case"].get("lists", [])) else 1,
+                                                        len(json.dumps(f["case"], default=str))))[:6]
+        extra = []
+        for f in cases:
+            for _ in range(30):
+                scn = json.loads(json.dumps({k: v for k, v in f["case"].items() if not k.startswith("_")}))
+                for o in scn["ops"]:
+                    if o["op"] == "randomize":
+                        o["seed"] = rng.randrange(1 << 30)
+                extra.append(scn)
+        before = len(ck.corr_failures)
+        run(ck, 0, 0.0, extra=extra)
+        del ck.corr_failures[before:]
+        ck.cov["failing_input_search_scenarios"] = len(extra)
     ck.cov.update({"programs": ck.counts.get("eval_scenarios", 0), "evaluations": ck.counts.get("calls", 0) + ck.counts.get("exposure_reads", 0),
                    "distinct_nontrivial": ck.counts.get("calls", 0),
                    "rule": "generated classes with 1-3 scalars and 1-2 scalar lists (2-4 bit elements; random fixed-size 0..4, non-random, random-size), "
